@@ -118,10 +118,9 @@ macro_rules! c05_bodies {
             crate::cover!(s, which == 2, "zeta3");
         }
         /// parameterless defaults of the real writer agree with the table-less variants
-        pub fn $defaults_w<S: Src>(s: &mut S) {
+        pub fn $defaults_w<S: Src, const WHICH: u8>(s: &mut S) {
             let p = any_writer_state::<u64, S>(s);
-            let which = s.u8();
-            s.assume(which < 4);
+            let which = WHICH;
             let v = s.u64_in(0, u64::MAX - 1);
             let mut a = BufBitWriter::<$e, Rec<u64, RN>>::verif_from_parts(p.rec.clone(), p.buffer, p.space);
             let mut b = BufBitWriter::<$e, Rec<u64, RN>>::verif_from_parts(p.rec, p.buffer, p.space);
@@ -240,11 +239,23 @@ crate::harnesses! {
     #[kani::unwind(7)]
     c05_defaults_r_u16_be (thorough, "BufBitReader<BE, MemWordReader<u16>> parameterless read_gamma/read_delta/read_zeta3", "any Inv_r state, symbolic stream") => defaults_r_be::<u16, _, 8>;
     #[kani::unwind(4)]
-    c05_defaults_w_be (quick, "BufBitWriter<BE, Rec<u64>> parameterless write_gamma/write_delta/write_zeta3/write_zeta(3)", "any writer state, v<=2^64-2") => defaults_w_be::<_>;
+    c05_defaults_w_gamma_be (quick, "BufBitWriter<BE, Rec<u64>> parameterless write of gamma", "any writer state, v<=2^64-2: same words/pending bits/length as the table-less variant") => defaults_w_be::<_, 0>;
+    #[kani::unwind(4)]
+    c05_defaults_w_delta_be (quick, "BufBitWriter<BE, Rec<u64>> parameterless write of delta", "any writer state, v<=2^64-2: same words/pending bits/length as the table-less variant") => defaults_w_be::<_, 1>;
+    #[kani::unwind(4)]
+    c05_defaults_w_zeta3_be (quick, "BufBitWriter<BE, Rec<u64>> parameterless write of zeta3", "any writer state, v<=2^64-2: same words/pending bits/length as the table-less variant") => defaults_w_be::<_, 2>;
+    #[kani::unwind(4)]
+    c05_defaults_w_zeta_k3_be (quick, "BufBitWriter<BE, Rec<u64>> parameterless write of zeta_k3", "any writer state, v<=2^64-2: same words/pending bits/length as the table-less variant") => defaults_w_be::<_, 3>;
     #[kani::unwind(7)]
     c05_defaults_r_u32_le (quick, "BufBitReader<LE, MemWordReader<u32>> parameterless read_gamma/read_delta/read_zeta3", "any Inv_r state, symbolic stream") => defaults_r_le::<u32, _, 5>;
     #[kani::unwind(7)]
     c05_defaults_r_u16_le (thorough, "BufBitReader<LE, MemWordReader<u16>> parameterless read_gamma/read_delta/read_zeta3", "any Inv_r state, symbolic stream") => defaults_r_le::<u16, _, 8>;
     #[kani::unwind(4)]
-    c05_defaults_w_le (quick, "BufBitWriter<LE, Rec<u64>> parameterless write_gamma/write_delta/write_zeta3/write_zeta(3)", "any writer state, v<=2^64-2") => defaults_w_le::<_>;
+    c05_defaults_w_gamma_le (quick, "BufBitWriter<LE, Rec<u64>> parameterless write of gamma", "any writer state, v<=2^64-2: same words/pending bits/length as the table-less variant") => defaults_w_le::<_, 0>;
+    #[kani::unwind(4)]
+    c05_defaults_w_delta_le (quick, "BufBitWriter<LE, Rec<u64>> parameterless write of delta", "any writer state, v<=2^64-2: same words/pending bits/length as the table-less variant") => defaults_w_le::<_, 1>;
+    #[kani::unwind(4)]
+    c05_defaults_w_zeta3_le (quick, "BufBitWriter<LE, Rec<u64>> parameterless write of zeta3", "any writer state, v<=2^64-2: same words/pending bits/length as the table-less variant") => defaults_w_le::<_, 2>;
+    #[kani::unwind(4)]
+    c05_defaults_w_zeta_k3_le (quick, "BufBitWriter<LE, Rec<u64>> parameterless write of zeta_k3", "any writer state, v<=2^64-2: same words/pending bits/length as the table-less variant") => defaults_w_le::<_, 3>;
 }
